@@ -14,7 +14,7 @@
     unescape_plain_and_inverts unescapeFn_spec stripentities_escape striptags_escape plaintext_escape
     attrs_has_iff_get attrs_slice_spec attrs_sub_nodup attrs_or_sub_nodup attrs_totuple_append
     qname_pickle_roundtrip qname_parse ns_getitem_in
-    stripentities_keepxml_escape striptags_no_tag attrs_get_or
+    stripentities_keepxml_escape striptags_no_tag attrs_get_or escape2_append unescape_no_entity
 -/
 import Genshi.Lemmas.Escape
 import Genshi.Lemmas.MarkupOps
@@ -587,6 +587,16 @@ theorem attrs_get_or (a : Attrs) (b : List (Name × Option (List Char))) (n : Na
       unfold orNew
       rw [get_orNew_fold a (orRemove b) n hh' hr' b []]
       cases lastVal n (somes b) <;> simp [Attrs.get]
+
+/-- escaping distributes over concatenation in both implementations -/
+theorem escape2_append (i : Impl) (q : Bool) (a b : List Char) :
+    escOf i q (a ++ b) = escOf i q a ++ escOf i q b := by
+  simp [escOf_eq_spec, escapeSpec]
+
+/-- text without `&` holds no entity: `unescape` (method and module function) returns it as it is -/
+theorem unescape_no_entity (s : List Char) (h : '&' ∉ s) :
+    unescapeM s = (.str, s) ∧ unescapeFn (.markup s) = some (.str, s) := by
+  simp [unescapeM, unescapeFn, unescape_no_amp s h]
 
 end Wave4
 
